@@ -5,9 +5,11 @@ import (
 	"net"
 	"net/netip"
 	"reflect"
+	"runtime"
 	"sort"
 	"strings"
 	"sync"
+	"sync/atomic"
 	"time"
 
 	codec "github.com/uhppoted/uhppote-core/encoding/UTO311-L0x"
@@ -829,6 +831,7 @@ func c18(c *Ctx) {
 	}
 	// ---- different layouts behind one type name
 	c18NamedTypes(c)
+	c18ConcurrentDates(c)
 
 	// ---- exhaustive single-field layouts
 	slot := 0
@@ -867,4 +870,63 @@ func c18(c *Ctx) {
 		}
 		c18Run(c, r, lc, caseNo, "multi-field")
 	}
+}
+
+// c18ConcurrentDates: eight goroutines decode one date-bearing layout at the same time; each keeps coming back to its own few
+// dates (a card list repeats the same from/to dates) - every decode returns the dates of its own bytes.
+func c18ConcurrentDates(c *Ctx) {
+	type rec struct {
+		MsgType types.MsgType     `uhppote:"value:0x5a"`
+		From    types.Date        `uhppote:"offset:8"`
+		To      *types.Date       `uhppote:"offset:12"`
+		Sys     types.SystemDate  `uhppote:"offset:20"`
+		When    types.DateTime    `uhppote:"offset:24"`
+		Also    *types.SystemDate `uhppote:"offset:40"`
+	}
+	if old := runtime.GOMAXPROCS(0); old < 8 {
+		runtime.GOMAXPROCS(8)
+		defer runtime.GOMAXPROCS(old)
+	}
+	G := 8
+	per := c.N(15000, 150000)
+	var wg sync.WaitGroup
+	var nbad atomic.Int64
+	for g := 0; g < G; g++ {
+		wg.Add(1)
+		go func(g int) {
+			defer wg.Done()
+			rr := gen.New(c.Seed, fmt.Sprintf("C18/concurrent-dates/%d", g), c.Batch)
+			days := [][3]int{}
+			for k := 0; k < 3; k++ {
+				days = append(days, [3]int{2000 + rr.Pick(68), 1 + rr.Pick(12), 1 + rr.Pick(28)})
+			}
+			for k := 0; k < per && nbad.Load() < 4; k++ {
+				a, b := days[rr.Pick(3)], days[rr.Pick(3)]
+				if rr.Pick(50) == 0 {
+					days[rr.Pick(3)] = [3]int{2000 + rr.Pick(68), 1 + rr.Pick(12), 1 + rr.Pick(28)}
+				}
+				msg := make([]byte, 64)
+				msg[0], msg[1] = 0x17, 0x5a
+				copy(msg[8:], bcdDate(a[0], a[1], a[2]))
+				copy(msg[12:], bcdDate(b[0], b[1], b[2]))
+				copy(msg[20:], []byte{bcdb(a[0] % 100), bcdb(a[1]), bcdb(a[2])})
+				copy(msg[24:], append(bcdDate(b[0], b[1], b[2]), 0x12, 0x34, 0x56))
+				copy(msg[40:], []byte{bcdb(b[0] % 100), bcdb(b[1]), bcdb(b[2])})
+				var v rec
+				err := safeUnmarshal(msg, &v)
+				c.Res.Eval(1)
+				wa, wb := fmt.Sprintf("%04d-%02d-%02d", a[0], a[1], a[2]), fmt.Sprintf("%04d-%02d-%02d", b[0], b[1], b[2])
+				got := ""
+				if err == nil && v.To != nil && v.Also != nil {
+					got = fmt.Sprintf("%v %v %v %v %v", v.From, *v.To, time.Time(v.Sys).Format("2006-01-02"), time.Time(v.When).Format("2006-01-02 15:04:05"), time.Time(*v.Also).Format("2006-01-02"))
+				}
+				if want := fmt.Sprintf("%s %s %s %s 12:34:56 %s", wa, wb, wa, wb, wb); got != want {
+					nbad.Add(1)
+					c.Res.Violate("C18:decode:concurrent:date", fmt.Sprintf("a layout with date fields decoded by %d goroutines at the same time: bytes for {%s} decode to {%s} (err %v)", G, want, got, err), map[string]any{"bytes": wk.Hex(msg)}, -11)
+				}
+			}
+		}(g)
+	}
+	wg.Wait()
+	c.Res.Count("concurrent-decodes-of-a-date-bearing-layout", int64(G*per))
 }
